@@ -13,10 +13,9 @@
    outputs), [stmt_fault_free_accepted_gen] (the compiled table), and the converse
    [stmt_accepted_fault_free_gen], hence [stmt_accepted_iff_fault_free_gen]: for the compiled
    table [fault_free] is EXACTLY acceptance, so no clause is stronger than what the builder
-   enforces.  Two clauses are deliberately weaker than a reader of the property might expect,
-   because the builder enforces no more (CompleteProofs.v, "FINDING"): [ff_init_no_wire] /
-   [ff_init_eval] do not say that a register's initial value reads declared constants only, nor
-   that it passes the width rules. *)
+   enforces.  (Two defects found while proving this - register initial values were never passed to
+   the width checker, and reading a stall_X / bubble_X the program leaves unassigned was refused -
+   are repaired in the implementation; the clauses below are the natural ones.) *)
 From Coq Require Import Relations.
 From HclV Require Import Base Expr ExprRules Machine Graph Build BuildSpec Generated.
 Open Scope string_scope.
@@ -104,12 +103,17 @@ Section CompleteSpec.
   Definition const_reads (stmts : list stmt) (x y : string) : Prop :=
     exists e, In (y, e) (const_exprs stmts) /\ In x (refs e).
 
+  (* a bank's stall_X / bubble_X that the program does not assign: it is 0 throughout *)
+  Definition defaulted (stmts : list stmt) (x : string) : Prop :=
+    In x (bank_specials stmts) /\ ~ In x (assigned_names stmts).
+
   (* "x is read to compute y" within one cycle: y is assigned an expression mentioning x, where x
-     is neither a constant nor a register output (those are known when the cycle starts); or y is
-     the output of a built-in component in use and x one of its inputs *)
+     is neither a constant nor a register output nor a defaulted control signal (those are known
+     when the cycle starts); or y is the output of a built-in component in use and x one of its
+     inputs *)
   Definition wire_reads (stmts : list stmt) (x y : string) : Prop :=
     (exists e, In (y, e) (assign_exprs stmts) /\ In x (refs e) /\
-               ~ In x (const_names stmts) /\ ~ In x (bank_outputs stmts)) \/
+               ~ In x (const_names stmts) /\ ~ In x (bank_outputs stmts) /\ ~ defaulted stmts x) \/
     (exists ff w, In ff fixed /\ inputs_assigned stmts ff /\ ff_out ff = Some (y, w) /\
                   In x (fixed_in_names ff)).
 
@@ -149,11 +153,11 @@ Section CompleteSpec.
     ff_consts_width : forall n e, In (n, e) (const_exprs stmts) -> exists w, has_width f (cwidth cv) cv e w;
 
     (* -- register initial values -- *)
-    (* an initial value does not depend on a wire: it reads no declared wire and no built-in wire *)
-    ff_init_no_wire : forall x r, In x (bank_regs stmts) -> In r (refs (reg_init x)) ->
-        In r (const_names stmts) \/ (~ In r (wire_names stmts) /\ ~ In r (fixed_names fixed));
-    (* from the constants alone it evaluates (no division by zero, no undeclared name reached) to a
-       value of the register's width, or unsized *)
+    (* an initial value depends on constants only (not on wires, not on undeclared names) *)
+    ff_init_closed : forall x r, In x (bank_regs stmts) -> In r (refs (reg_init x)) -> In r (const_names stmts);
+    (* no width fault in an initial value *)
+    ff_init_width : forall x, In x (bank_regs stmts) -> exists w, has_width f (cwidth cv) cv (reg_init x) w;
+    (* it evaluates (no division by zero) to a value of the register's width, or unsized *)
     ff_init_eval : forall x, In x (bank_regs stmts) ->
         exists v, eval f cv (reg_init x) = Ok v /\ wcombine (wd v) (reg_width x) <> None;
 
@@ -176,12 +180,12 @@ Section CompleteSpec.
         In j (fixed_in_names c) -> ~ In j (assigned_names stmts) ->
         exists en e v, ff_enable c = Some en /\ In (en, e) (assign_exprs stmts) /\
                        eval f cv e = Ok v /\ is_true v = false;
-    (* every name an assignment reads has a driver: a constant, a register output, an assigned
-       name, or the output of a built-in component all of whose inputs are assigned
-       (so: reading a built-in output makes its inputs "needed"; and stall_X / bubble_X may be
-       read only when the program assigns them - a defaulted one has no driver for the builder) *)
+    (* every name an assignment reads has a driver: a constant, a register output, a bank's
+       stall_X / bubble_X (assigned or not), an assigned name, or the output of a built-in component
+       all of whose inputs are assigned (so: reading a built-in output makes its inputs "needed") *)
     ff_reads_driven : forall y e x, In (y, e) (assign_exprs stmts) -> In x (refs e) ->
-        In x (const_names stmts) \/ In x (bank_outputs stmts) \/ In x (assigned_names stmts) \/
+        In x (const_names stmts) \/ In x (bank_outputs stmts) \/ In x (bank_specials stmts) \/
+        In x (assigned_names stmts) \/
         exists c w, In c fixed /\ ff_out c = Some (x, w) /\ inputs_assigned stmts c;
     (* no width fault: the expression has a width, equal to the declared width of the target or unsized *)
     ff_assign_widths : forall n e w, In (n, e) (assign_exprs stmts) -> G n = Some w -> assign_ok f G cv w e;
